@@ -199,6 +199,7 @@ CHECKS = {
     "C24": dict(
         subjects=[(n, 8000, 300000) for n in ["misc.vyukov_queue_pool", "misc.lazy_vyukov_queue_pool", "misc.bounded_vyukov_queue_pool", "misc.pool_allocator_vyukov", "misc.pool_allocator_lazy", "misc.pool_allocator_bounded"]],
         classes=["allocated-twice", "object-overwritten", "object-lost"],
+        fatal_classes_as_violation=["hang-solo"],   # allocate()/deallocate() that can never return although every other client has finished: deallocated objects do not become available again
         expect_probes=["bounded_pool_exhausted"],
         title="Object pools never hand one object to two holders",
         technique="deterministic simulation (seeded schedules, weak-CAS failures, thread churn; programs allocate up to and past capacity) with an online ownership-map oracle, object tags and quiescent re-allocation",
